@@ -11,7 +11,7 @@
 From Coq Require Import List Arith NArith Bool.
 Import ListNotations.
 Require Import RV.Lib.Bytes RV.Lib.SortedMap RV.Model.C14_Store RV.Model.C14_Overlay
-               RV.Proof.C14_Store RV.Proof.C14_Overlay.
+               RV.Proof.C14_Store RV.Proof.C14_Overlay RV.Proof.C14_PartKeys.
 Open Scope N_scope.
 
 (* every read through the overlay equals the read on the base with the commits applied *)
@@ -55,6 +55,44 @@ Theorem C14_overlaying_iterator : forall u o, sorted blt u -> sorted blt o ->
             match lookup blt k o with Some (Some v) => Some v | Some None => None | None => lookup blt k u end.
 Proof. intros u o Su So. split; [apply ov_iter_sorted; assumption|intro k; apply ov_iter_lookup; assumption]. Qed.
 
+(* ---- ListableSubstateDatabase::list_partition_keys of the overlay (not named in the property statement,
+        whose "partition listings" are the cursor listings above; brought inside the model as written) ----
+   It yields, without duplicates and in key order, the root's partitions and every staged partition;
+   the partition set of the specification is exactly the yielded partitions whose listing through the
+   overlay is non-empty.  So it is a superset: a staged partition that ends up empty (reset to nothing,
+   or all substates deleted) is still yielded ... *)
+Theorem C14_list_partition_keys : forall base cs, db_wf base -> Forall updates_wf cs ->
+  let o := ov_run base cs in
+  NoDup (ov_list_partition_keys o) /\
+  (forall pk, In pk (mem_list_partition_keys (apply_commits base cs)) <->
+              (In pk (ov_list_partition_keys o) /\ ov_list o pk None <> [])).
+Proof. exact overlay_partition_keys. Qed.
+(* ... and equality with the specification's partition list does fail (witness replayed by the harness:
+   class bf_partition_keys_staged_empty); after commit_overlay_into_root_store it is exact again
+   (C14_merge_into_base: the overlay is then a fresh overlay over the specification) *)
+Theorem C14_list_partition_keys_equality_refuted :
+  exists base cs, db_wf base /\ Forall updates_wf cs /\
+    ov_list_partition_keys (ov_run base cs) <> mem_list_partition_keys (apply_commits base cs).
+Proof.
+  exists mem_new, [[([1], [(0, PReset [])])]]. split; [exact db_wf_nil|]. split.
+  - repeat constructor; cbn; intuition.
+  - vm_compute. discriminate.
+Qed.
+Theorem C14_list_partition_keys_fresh : forall db, db_wf db ->
+  ov_list_partition_keys (overlay_new db) = mem_list_partition_keys db.
+Proof.
+  intros db W. unfold ov_list_partition_keys, overlay_new. cbn [ov_staging ov_root flat_map].
+  destruct (map (fun pk : pkey => (pk, tt)) (mem_list_partition_keys db)) eqn:E; rewrite <- E;
+    [|]; rewrite ?E; cbn [overlaying_iter_gen]; rewrite <- ?E; rewrite map_map; cbn [fst]; apply map_id.
+Qed.
+
+(* database_updates() / into_database_updates() / deconstruct(): the returned updates keep the IndexMap
+   invariant and committing them to the base yields the base with the commits applied *)
+Theorem C14_database_updates : forall base cs, db_wf base -> Forall updates_wf cs ->
+  updates_wf (ov_database_updates (ov_run base cs)) /\
+  mem_commit base (ov_database_updates (ov_run base cs)) = apply_commits base cs.
+Proof. exact overlay_database_updates. Qed.
+
 (* non-vacuity: a base with two partitions; history = delta, reset, delta on the reset partition,
    delete of an absent key; listings from a cursor that is a deleted key *)
 Example C14_nonvacuous :
@@ -82,3 +120,7 @@ Print Assumptions C14_after_merge.
 Print Assumptions C14_base_reachable.
 Print Assumptions C14_overlaying_iterator.
 Print Assumptions C14_nonvacuous.
+Print Assumptions C14_list_partition_keys.
+Print Assumptions C14_list_partition_keys_equality_refuted.
+Print Assumptions C14_list_partition_keys_fresh.
+Print Assumptions C14_database_updates.
